@@ -20,6 +20,9 @@ result = [per op: {outcome, trace, nsver, diff, nsend}]
              only what lies outside them or was stored into them later)
    refused = return codes with which the machine refused commands of this op without executing them (fault plan)
    max_tx  = the largest number of times one and the same datagram was transmitted during the op
+ case["struct_text"]: mc.boot(sark_struct=<that text>) first (boot socket / clock faked); case["advance_seq"]: the initial
+   connection's sequence generator is advanced that many steps; case["ctx_defs"] / case["enter"]: kept Context objects
+   mc(**def) and, per op, the ones entered (outermost first) around a call that names no x, y, p.
  case["discover"]: mc.discover_connections() runs first (case["eth"] = [[x, y, k], ...] Ethernet chips with IP
    10.11.12.k; the boot chip's memory holds p2p_dims and the P2P table); the fault plan starts after it.
 """
@@ -169,6 +172,70 @@ def run_op(mc, op, x, y, buffer, window):
     raise ValueError("unknown op " + k)
 
 
+def run_op_ctx(mc, op):
+    """the call with x, y (and p) left to the contexts that are entered"""
+    k = op[0]
+    if k == "read":
+        return mc.read(op[2], op[3])
+    if k == "write":
+        return mc.write(op[2], get_data(op[3]))
+    if k == "fill":
+        return mc.fill(op[2], op[3], op[4])
+    if k == "read_struct":
+        return mc.read_struct_field("sv", op[2])
+    if k == "write_struct":
+        v = op[3]
+        return mc.write_struct_field("sv", op[2], tuple(v) if isinstance(v, list) else v)
+    raise ValueError("no contextual form of " + k)
+
+
+class _Sink(object):
+    """the UDP socket rig.machine_control.boot sends the boot image to"""
+    AF_INET = 2
+    SOCK_DGRAM = 2
+
+    def __init__(self):
+        self.sent = 0
+
+    def socket(self, *a, **k):
+        return self
+
+    def connect(self, addr):
+        pass
+
+    def send(self, data):
+        self.sent += 1
+        return len(data)
+
+    def close(self):
+        pass
+
+
+class _NoSleep(object):
+    def time(self):
+        return 1500000000
+
+    def sleep(self, dt):
+        pass
+
+
+def boot_with(mc, text):
+    """mc.boot(sark_struct=<file with the given text>) with the boot module's socket and clock replaced"""
+    import os
+    import tempfile
+    from rig.machine_control import boot as boot_mod
+    fd, path = tempfile.mkstemp(suffix=".struct", dir=os.getcwd())
+    os.write(fd, text.encode("latin-1"))
+    os.close(fd)
+    saved = boot_mod.socket, boot_mod.time
+    boot_mod.socket, boot_mod.time = _Sink(), _NoSleep()
+    try:
+        return mc.boot(sark_struct=path, only_if_needed=False, check_booted=False, boot_delay=0, post_boot_delay=0)
+    finally:
+        boot_mod.socket, boot_mod.time = saved
+        os.unlink(path)
+
+
 def run_case(c):
     machine = sim.SimMachine(c["seed"], c.get("over", []), c["buffer"], c.get("dims", [8, 8]), eth=c.get("eth", ()))
     plan = c.get("plan") or {}
@@ -197,6 +264,17 @@ def run_case(c):
             results_pre = dict(found=found, conns=sorted(list(k) for k in mc.connections if k is not None))
         else:
             results_pre = None
+        if c.get("struct_text"):
+            # the machine is (re)booted with a struct file whose fields have moved: the controller must use it
+            try:
+                boot_with(mc, c["struct_text"])
+            except Exception as e:                               # noqa
+                return [dict(outcome=["exc", type(e).__name__, "boot: " + str(e)[:120]], trace=[], max_tx=0,
+                             discovered=None, nsock=len(net.sockets), nsver=0, diff=machine.mem.diff(), nsend=net.ntx,
+                             ports=[], fills=[], refused=[])]
+        for _ in range(c.get("advance_seq", 0)):
+            next(mc.connections[None].seq)        # a long-lived connection: its sequence counter is about to wrap
+        ctxs = [mc(**d) for d in c.get("ctx_defs", [])]         # Context objects kept and entered again and again
         for i, op in enumerate(c["ops"]):
             x, y = c["chips"][i] if c.get("chips") else c["chip"]     # one controller, possibly several chips
             lo = len(machine.log)
@@ -204,7 +282,14 @@ def run_case(c):
             llo = len(net.log)
             rlo = len(machine.refused)
             try:
-                v = run_op(mc, op, x, y, c["buffer"], c["window"])
+                if c.get("enter"):
+                    import contextlib
+                    with contextlib.ExitStack() as st:
+                        for j in c["enter"][i]:
+                            st.enter_context(ctxs[j])
+                        v = run_op_ctx(mc, op)
+                else:
+                    v = run_op(mc, op, x, y, c["buffer"], c["window"])
                 outcome = ["ok", jsonable(v)]
             except scpsim.ScriptExhausted:
                 outcome = ["stuck"]
